@@ -6,7 +6,7 @@ ENTRY = dict(
     technique="Lean 4 theorems over all frames / streams / configurations (envelope model shared with C01, byte-level network-info and "
               "program-version codecs, PyFrame equality model) + correspondence with Frame.bytes -> FrameReader.read -> fields -> .bytes, "
               "X(data=d).message -> X(message=...).data, and Python ==/!= on generated frame pairs",
-    prop_modules=["C03", "C03Object", "TieFrameObj"],
+    prop_modules=["C03", "C03Object", "TieFrameObj", "TieFrameObjRun", "TieNetVersion"],
     level_text=(
         "Proof: `C03.read_encode` shows for ALL frames that pass the reader's gates (<= 1000 bytes, addressed to the library or broadcast, "
         "known sender and kind) and ALL trailing bytes that reading the serialised bytes delivers exactly the same kind, addressing, versions "
@@ -24,7 +24,11 @@ ENTRY = dict(
         "and ==/!= on pairs that are identical or differ in exactly one of kind, recipient, sender, econet type, version, message, data."),
     level_note="CODE TIE (round 8): tools/py2lean_types.py translates the source text of the frame object (Frame.__init__, message / data getters and setters, length, __len__, header, bytes; "
                "create_message / decode_message / frame_type of the concrete kind are a parameter) and Props/TieFrameObj.lean proves `translated method = Obj.step` for ALL object states and codecs "
-               "(`Frame_message_eq`, `Frame_data_eq`, `Frame_*_set_eq`, `Frame_length_eq`, `Frame_header_eq`, `Frame_bytes_eq`, `Frame_step_sim`); soft mode: CODE-TIE-BROKEN. "
+               "(`Frame_message_eq`, `Frame_data_eq`, `Frame_*_set_eq`, `Frame_length_eq`, `Frame_header_eq`, `Frame_bytes_eq`, `Frame_step_sim`: ONE operation from a well-formed state); Props/TieFrameObjRun.lean: `Frame_run_sim` over operation LISTS "
+               "(= `Obj.run` up to and including the first raising operation; side condition: data values set are not `None`) and, on the translated code, `F5_one_sided_fill_code` (reading `bytes` with success leaves an instance different from the one before; `message` leaves the same instance as `bytes`) and "
+               "`fresh_same_args_code` (the translated constructor stores exactly its arguments: two constructions of one kind agree iff `pyEq` of the model frames holds). `Frame.__eq__` itself and `assign_to` are NOT translated: C03's equality theorems (`eq_fresh_iff`, `eq_after_*_fill`, `eq_preserved`, `pyEq_iff`) stay theorems about the hand-written `pyEq`, tied to Python `==` by correspondence only. "
+               "Props/TieNetVersion.lean: translated `ProgramVersionStructure.decode` = `Version.decode` for all messages and offsets (no prior data dict), so the decode half of `version_roundtrip` speaks about the source; `ProgramVersionStructure.encode`, `NetworkInfoStructure.encode / decode` are translated and validated against CPython (pycode_types group net) — no Tie theorem yet, `net_roundtrip` stays tied differentially. "
+               "Excluded by the hypotheses: codecs that read anything of the instance but the sender (`frame.handler`: RegulatorData, ThermostatParameters), frame-type codes >= 256, non-empty `**kwargs` at construction, the state after a raised exception. soft mode: CODE-TIE-BROKEN. "
                "Trusted: Lean kernel; the remaining model <-> code ties are differential; text forms of IPv4 addresses, SSIDs (UTF-8) and 'a.b.c' are CPython's. "
                "Frame.__eq__ compares the lazy caches: a frame whose .bytes/.data was read differs from a fresh frame built from the same "
                "arguments (modelled; reported as an observation, not judged as a violation).",
